@@ -398,6 +398,8 @@ C12_STRINGS = ["a = 1; a", "1", "1.5", '"s"', "true", "(1,2)", "()", "", "a", "b
                # user functions answering with the typed-accessor errors a wrapper might confuse with its own
                "a = 1 / 0", "a = missing", "1 / 0; a = 2", "b = nosuch(1)", "a += true + 1", "missing; a = 1", "h(1); a = 2",
                '"a" = 3; a', '"x" += 1', "3 = 4", '("a" + "b") = true; ab', '"c" = "s"; c', '"q" = 1; q', "(a) = 4; a",
+               "false && 1", "true || missing", "false && 1/0", "true || 1/0", "false && missing", "x || 1", "!x && 1", "false && (a = 1)",
+               "\ufeff1 + 2", "\ufeffx", "\ufeff", "\ufeff a", "a\ufeff", "\u200b1", "1 +\ufeff 2",
                "nf(1)", "nf(1.5)", "nf(a)", "nf(b)", "nf(c)", "nn(c)", "nn(a)", "nf a", "nf(1) + 1", "nf(x)", "nn(y)", "nf(())"]
 # consecutive evaluations of strings that differ only in separators inside or between tokens: each is evaluated on its own
 C12_PAIRS = [('"a b" + "c"', '"ab" + "c"'), ("1 2", "12"), ("a b", "ab"), ("1 + 2", "1+2"), ("12", "1 2"), ('"x"', '" x"'),
@@ -500,6 +502,9 @@ def c12_oracle(case, out, model_out):
             want = project_text(ty, base)
             if res[code] != want:
                 return "entry point %s on %r%s in context %s: returned %s, the projection of the untyped result %s is %s" % (code, src, after, m["ctx"], res[code], base, want)
+        # one evaluator: without an assignment operator in the source, shared and mutable evaluation are the same evaluation
+        if "srv" in res and "smv" in res and not re.search(r"(?<![=!<>])=(?!=)", src) and res["srv"] != res["smv"]:
+            return "%r%s has no assignment operator but eval_with_context gives %s and eval_with_context_mut gives %s (context %s)" % (src, after, res["srv"], res["smv"], m["ctx"])
         if build is not None and build.startswith("ERR"):
             for code in codes:
                 if res[code] != build:
@@ -868,7 +873,8 @@ def c13_gen(tier, rng):
         for n in lens:
             for seq in itertools.product(alpha, repeat=n):
                 cases.append(c13_case(list(seq)))
-    for alpha, lens in ((["false", "true", "&&", "||", "!", "(", ")"], (4, 5)), (["0", "1", "*", "^", "(", ")", "!", "-"], (5,))):
+    for alpha, lens in ((["false", "true", "&&", "||", "!", "(", ")"], (4, 5)), (["0", "1", "*", "^", "(", ")", "!", "-"], (5,)),
+                        (["f", "typeof", "!", "-", "true", "1", "(", ")"], (3, 4, 5))):
         for n in lens:
             for seq in itertools.product(alpha, repeat=n):
                 cases.append(c13_case(list(seq)))
@@ -1153,8 +1159,19 @@ def c10_gen(tier, rng):
         if n in ("min", "max", "math::pow", "math::log", "math::atan2", "math::hypot"):
             fl = [G.vF(b) for b in G.FLOAT_BITS]
             pairs += [(a, b) for a in fl + ints for b in fl if rng.random() < (1.0 if tier == "thorough" else 0.08)]
+        if n in ("min", "max", "math::pow", "math::log", "math::atan2", "math::hypot"):
+            # where integer and double arithmetic part ways, and the special doubles: all pairs
+            def boundary(v):
+                if v[0] == "I":
+                    return abs(int(v[1:])) >= 2 ** 53 - 1 or abs(int(v[1:])) <= 2
+                f = G.bits_to_float(int(v[1:], 16))
+                return f != f or f == 0.0 or abs(f) >= 2.0 ** 52 or abs(f) in (0.5, 1.0, 2.0, 10.0)
+            Bn = [v for v in P if v[0] in "IF" and boundary(v)]
+            pairs += [(a, b) for a in Bn for b in Bn]
         if n in ("contains", "contains_any"):
             pairs += [(t, v) for t in G.TUPLES for v in P if rng.random() < 0.5]
+            hay = G.vT([G.vS("ab"), G.vS("A"), G.vS("abc"), G.vS(""), G.vS("ä"), G.vI(1), G.vF(G.fbits(1.0)), G.vB(True)])
+            pairs += [(hay, v) for v in P] + [(hay, G.vT([v, G.vS("zz")])) for v in P if v[0] in "SIFB"]
         for a, b in pairs:
             add(n, G.vT([a, b]))
         for _ in range(150 if tier == "quick" else 3000):
@@ -1191,11 +1208,12 @@ def c10_gen(tier, rng):
                 add("if", G.vT([c, a, b]))
     # min / max over longer lists
     for _ in range(3000 if tier == "quick" else 50000):
-        items = [G.vI(G.clamp_i64(G.rand_int(rng))) if rng.random() < 0.5 else G.vF(G.rand_float_bits(rng)) for _ in range(rng.randint(1, 5))]
+        items = [G.vI(G.clamp_i64(G.rand_int(rng))) if rng.random() < 0.5 else G.vF(G.rand_float_bits(rng)) for _ in range(rng.randint(1, 5) if rng.random() < 0.8 else rng.randint(6, 40))]
         add(rng.choice(["min", "max"]), G.vT(items))
     # names that are not builtins
-    for n in ["abs", "sqrt", "math::min", "Math::ln", "str::len", "math::log1p", "substring", "floor2", "shl2"]:
+    for n in ["abs", "sqrt", "math::min", "Math::ln", "str::len", "math::log1p", "substring", "floor2", "shl2"] + builtin_near_misses():
         add(n, G.vI(1))
+        add(n, G.vF(G.fbits(1.5)))
     return cases
 
 
@@ -1385,6 +1403,13 @@ def c08_rand_expr(r, depth, ty=None):
         return ("paren", ("chain", [("asg", op, x, c08_rand_expr(r, depth - 1, ty)), ("var", x)]))
     if k < 0.27:
         return ("paren", ("chain", [c08_rand_expr(r, depth - 1) if r.random() < 0.9 else None for _ in range(r.randint(1, 2))] + [c08_rand_expr(r, depth - 1, ty)]))
+    if k < 0.30 and depth >= 2:      # the same operand twice: each occurrence is evaluated (and logged) on its own
+        e1 = c08_rand_expr(r, depth - 1, ty if ty in "IB" else "I")
+        if ty == "T":
+            return ("paren", ("tuple", [e1, e1] + ([e1] if r.random() < 0.3 else [])))
+        if ty == "B":
+            return ("bin", r.choice(["&&", "||", "=="]), e1, e1)
+        return ("bin", r.choice(["+", "*", "-"]), e1, e1)
     if k < 0.34:      # the builtin `if`: all three arguments are evaluated, in order, whatever the condition
         return ("call", "if", ("paren", ("tuple", [c08_rand_expr(r, depth - 1, "B"), c08_rand_expr(r, depth - 1, ty), c08_rand_expr(r, depth - 1, ty)])))
     if ty == "I":
@@ -1570,7 +1595,8 @@ def c11_gen(tier, rng):
                       ["dump", "evc %sm%s %s" % (lv, ty, hexs(src)), "ev %sr%s %s" % (lv, ty, hexs(src)), "dump"]
                 cases.append((G.script("H", ops), {"kind": "agree", "src": src, "ctx": "H", "entry": lv + "*" + ty}))
     # contexts without variable storage / read-only kinds
-    for src in ["a = 1", "a += 1", "1; a = 2", "q = 1; q", "1 + (z = 2)"]:
+    for src in ["a = 1", "a += 1", "1; a = 2", "q = 1; q", "1 + (z = 2)", "a = 2.5", 'a = "s"', "c = 1", "a ^= 2", "a /= 2.0", "b = 1", 'x = ()', "y = 1", '"a" = 1.5',
+                "z = 1", "a += 0.5"]:
         for kind in ("N", "E", "EB"):
             ops = (C12_SETUP if kind == "N" else []) + ["dump", "ev srv " + hexs(src), "dump"] + (["evc smv " + hexs(src), "dump"] if kind == "N" else [])
             cases.append((G.script(kind, ops), {"kind": "nostore", "src": src, "ctx": kind}))
@@ -1613,6 +1639,11 @@ def c11_oracle(case, out, model_out):
         for s in steps:
             if s.startswith("OK") and s != "OK" and "=" in m["src"] and not m["src"].startswith("q"):
                 return "assignment %r succeeded on context kind %s: %s" % (m["src"], m["ctx"], s)
+        evs = [s for s in steps if not s.startswith("CTX{") and s not in ("OK", "NA")]
+        if m["src"] in ("a = 2.5", 'a = "s"', "c = 1", "a ^= 2", "a /= 2.0", "b = 1", "x = ()", "y = 1", '"a" = 1.5', "z = 1", "a += 0.5", "a = 1", "a += 1", "1; a = 2"):
+            for s in evs:
+                if s != "ERR ContextNotMutable":
+                    return "assignment %r on a context without variable storage (kind %s) must fail with ContextNotMutable in every entry point, got %s" % (m["src"], m["ctx"], s)
     return None
 
 
@@ -1994,10 +2025,30 @@ def c09_cases(names_builtin, names_other, rng, full):
     return cases
 
 
+def builtin_near_misses():
+    """spellings next to the documented builtin names that are NOT builtins"""
+    doc = set(L.DOCUMENTED_BUILTINS)
+    out = set()
+    for n in L.DOCUMENTED_BUILTINS:
+        base = n.split("::")[-1]
+        for c in ("math::" + base, "str::" + base, base, n.capitalize(), n.upper(), n + "_", n + "2", n[:-1], "_" + n, n.replace("::", ":"), n.replace("::", "::::"),
+                  "std::" + base, n + "::", "::" + n, base + "::" + base, n.replace("_", ""), n.replace("_", "::")):
+            if c and c not in doc and not c[0].isdigit() and ":" != c[-1] and c != "::" + n:
+                out.add(c)
+    return sorted(out)
+
+
 def c09_gen(tier, rng):
     full = tier == "thorough"
     nb = list(L.DOCUMENTED_BUILTINS)     # every builtin name in both tiers (the quick tier drops half of the clone / clear_functions variants)
     cases = c09_cases(nb, C09_NON_BUILTIN, rng, full)
+    # names next to the builtin names resolve to nothing (contexts without user functions), whatever the switch
+    for n in builtin_near_misses():
+        for kind in ("EB", "H"):
+            forms = [("%s(3)" % n, "I3"), ("%s 1.5" % n, "F3ff8000000000000"), ('%s("a", "b")' % n, "T"), ("%s()" % n, "E")]
+            ops = ["ev srv " + hexs(src) for src, _ in forms] + ["ev srv " + hexs(n), "dump"]
+            cases.append((G.script(kind, ops), {"kind": "resolution", "name": n, "ctx": kind, "disabled": False, "user": False, "var": False,
+                                                "is_builtin": False, "forms": forms, "nsetup": 0, "post": ""}))
     # reference results of the builtins themselves (EmptyContextWithBuiltinFunctions), used for self-consistency
     return cases
 
@@ -2121,7 +2172,7 @@ def c14_gen(tier, rng):
         if rng.random() < 0.3:
             e = G.add_redundant_parens(rng, e)
         if rng.random() < 0.25:     # variables named like builtins and like the functions of the program: the class comes from the syntax only
-            e = rename_ast(e, lambda c, nm: {"a": "len", "b": "max", "c": "f", "x": "typeof", "foo": "if"}.get(nm, nm) if c in "RW" else nm)
+            e = rename_ast(e, lambda c, nm: {"a": "len", "b": "max", "c": "f", "x": "typeof", "foo": "if", "y": "True", "_z": "FALSE", "a1": "tRue"}.get(nm, nm) if c in "RW" else nm)
         src = G.render(G.flatten(e), rng, rng.choice(["space", "tight"]))
         occ = occurrences(e)
         j = lambda cls: ",".join(hexs(nm) for c, nm in occ if c in cls)
@@ -2777,7 +2828,7 @@ def c16_special(tier, rng, hooks):
         else:
             src = G.rand_unicode_string(rng, 12)
         lines.append("%d\tSERDEN\t%s" % (i, hexs(src)))
-    for src in ["", " ", "  a + 1  ", "\ta\n", "1 +", ")", "\"", "a /* x", "1, 2; 3", "1 + 2 /* todo", "/*", "\"a\\n\"", "(", "a b", "1 2", "= 1", "a \\ b", "\"\\", "1 )) 2"]:
+    for src in ["", " ", "  a + 1  ", "\ta\n", "1 +", ")", "\"", "a /* x", "1, 2; 3", "1 + 2 /* todo", "/*", "-5", "+5", "-9223372036854775808", "9223372036854775807", " 7", "7 ", "0x10", "-0x10", "1e3", "true", "-1.5", "+1.5", "007", "1_000", " -5 ", "--5", "- 5", "\"a\\n\"", "(", "a b", "1 2", "= 1", "a \\ b", "\"\\", "1 )) 2"]:
         lines.append("%d\tSERDEN\t%s" % (len(lines), hexs(src)))
     for i in range(n // 2):
         ops = []
